@@ -76,8 +76,40 @@ func c20Sends(c *Ctx) {
 				if _, ok := isFieldLoadNamed(snd.Chan, "knockChan"); !ok {
 					continue
 				}
+				// a queueing helper (`func (c *Canary) queueKnock(record KnockGrouper) { c.knockChan <- record }`): every call of
+				// it is a queueing site for the record it passes
+				if pr, isP := Unwrap(snd.X).(*ssa.Parameter); isP && pr.Parent() == fn && len(DomConds(snd)) == 0 {
+					idx := paramIdx(pr)
+					for _, g := range p.FuncsIn(canaryRel) {
+						for _, call := range Calls(g) {
+							if call.Common().StaticCallee() != fn || idx < 0 || idx >= len(call.Common().Args) {
+								continue
+							}
+							if _, isCall := call.(*ssa.Call); !isCall {
+								continue
+							}
+							c20QueueSite(c, canaryT, kinds, g, call, call.Common().Args[idx])
+						}
+					}
+					continue
+				}
+				c20QueueSite(c, canaryT, kinds, fn, snd, snd.X)
+			}
+		}
+	}
+	for _, k := range []string{"KnockTCPPort", "KnockUDPPort", "KnockICMP"} {
+		c.Check(kinds[k] >= 1, "knock-kinds-reported", k, "-", "has a reachable queueing site", "no satisfiable site queues "+k+" records: this probe kind is never part of a port-scan event")
+	}
+}
+
+// c20QueueSite: one place where a knock record `rec` is queued (the send itself, or the call of a queueing helper).
+func c20QueueSite(c *Ctx, canaryT *types.Named, kinds map[string]int, fn *ssa.Function, snd ssa.Instruction, rec ssa.Value) {
+	p := c.P
+	{
+		{
+			{
 				kind := "?"
-				if n := NamedOf(Unwrap(snd.X).Type()); n != nil {
+				if n := NamedOf(Unwrap(rec).Type()); n != nil {
 					kind = n.Obj().Name()
 				}
 				key := shortFn(fn) + " queues " + kind
@@ -93,7 +125,7 @@ func c20Sends(c *Ctx) {
 				}
 				if contra != "" {
 					c.Violate("knock-send-satisfiable", key, p.InstrPos(snd), "this probe record can never be queued: its dominating conditions require `"+contra+"` to be both true and false (an earlier branch on the same condition returns): probes of this kind are never reported")
-					continue
+					return
 				}
 				kinds[kind]++
 				c.Ok("knock-send-satisfiable", key, p.InstrPos(snd), "")
@@ -125,19 +157,16 @@ func c20Sends(c *Ctx) {
 				c.Check(dep == "", "knock-independent-of-reply", key, p.InstrPos(snd), "queued for every probe of this kind, whatever became of the reply",
 					"this probe record is only queued when "+dep+" is nil: a probe that the listener cannot answer (no ARP entry or route back to a spoofed or off-link source, transmit ring busy) is not counted, so a scan from such a source is reported with ports missing or not at all")
 				// the record's fields come from the packet's roles
-				c20KnockRoles(c, snd, key)
+				c20KnockRoles(c, rec, key)
 			}
 		}
 	}
-	for _, k := range []string{"KnockTCPPort", "KnockUDPPort", "KnockICMP"} {
-		c.Check(kinds[k] >= 1, "knock-kinds-reported", k, "-", "has a reachable queueing site", "no satisfiable site queues "+k+" records: this probe kind is never part of a port-scan event")
-	}
 }
 
-func c20KnockRoles(c *Ctx, snd *ssa.Send, key string) {
+func c20KnockRoles(c *Ctx, rec ssa.Value, key string) {
 	p := c.P
 	// value: load of alloc with field stores, or a struct built in an alloc
-	v := Unwrap(snd.X)
+	v := Unwrap(rec)
 	ld, ok := isLoad(v)
 	if !ok {
 		return
